@@ -73,6 +73,17 @@ def allAccept (t : Simple) : List DTValue → Bool
   | [] => true
   | x :: xs => if t.accepts x then allAccept t xs else false
 
+/-- The item loop of the collection-of-referenced-type closure (`item_definition.rs:424-431`,
+since 6db5092): an item whose evaluation is null makes the whole value null. -/
+def refLoop (f : DTValue → DTValue) : List DTValue → Option (List DTValue)
+  | [] => some []
+  | x :: xs =>
+    if f x = .null then none
+    else
+      match refLoop f xs with
+      | some ys => some (f x :: ys)
+      | none => none
+
 /-- The item loop of the collection-of-component closure; `g` is the component loop on one
 item's context. -/
 def itemLoop (g : List (Name × DTValue) → Option (List (Name × DTValue))) : List DTValue → Option (List DTValue)
@@ -94,10 +105,11 @@ mutual
 def checkWith (k : Name → Option (DTValue → DTValue)) : ItemDef → DTValue → DTValue
   -- build_simple_type_evaluator
   | .simple t av, v => if t.accepts v then checkAllowed v av else .null
-  -- build_referenced_type_evaluator: the allowed values of the referencing definition are not used
-  | .referenced n _, v =>
+  -- build_referenced_type_evaluator: the allowed values of the referencing definition
+  -- restrict the referenced type (since 2093924)
+  | .referenced n av, v =>
     match k n with
-    | some f => f v
+    | some f => checkAllowed (f v) av
     | none => .null
   -- build_component_type_evaluator
   | .component cs av, v =>
@@ -117,7 +129,10 @@ def checkWith (k : Name → Option (DTValue → DTValue)) : ItemDef → DTValue 
     match v with
     | .list xs =>
       match k n with
-      | some f => checkAllowed (.list (xs.map f)) av
+      | some f =>
+        match refLoop f xs with
+        | some ys => checkAllowed (.list ys) av
+        | none => .null
       | none => .null
     | _ => .null
   -- build_collection_of_component_type_evaluator
